@@ -74,36 +74,74 @@ theorem shapeInts_of_some (v : Val) (s : List Int) (h : Spec.shapeOfVal v = some
   | list xs => simp only [Spec.shapeOfVal] at h; simp [shapeInts, asInt_eq, h]
   | _ => simp [Spec.shapeOfVal] at h
 
+/-- a rank-1 array's declared length is the number of items it holds -/
+def WFShape : Val → Prop
+  | .arr dt [n] d => n = (chunks dt.size d).length
+  | _ => True
+
+theorem chunks_encodeInts (dt : DType) (hs : 1 ≤ dt.size) (xs : List Int) :
+    chunks dt.size (encodeInts dt xs) = xs.map (encodeInt dt) := by
+  unfold chunks encodeInts
+  apply chunksAux_flatten dt.size hs
+  · intro l hl; obtain ⟨x, _, rfl⟩ := List.mem_map.mp hl; exact length_encodeInt dt x
+  · simp only [List.length_map, List.length_flatten, List.map_map]
+    have : ∀ l : List Int, l.length ≤ (l.map (List.length ∘ encodeInt dt)).sum := by
+      intro l
+      induction l with
+      | nil => simp
+      | cons a as ih => simp [length_encodeInt]; omega
+    exact this xs
+
+theorem wf_ofInts (xs : List Int) : WFShape (Val.ofInts xs) := by
+  simp [WFShape, Val.ofInts, chunks_encodeInts DType.int64 (by decide)]
+
+theorem wf_shapeArray (xs : List Int) : WFShape (shapeArray xs) := by
+  unfold shapeArray
+  split
+  · simp [WFShape, chunks, chunksAux]
+  · exact wf_ofInts xs
+
+theorem wf_flattenArray (it : Val) (xs : List Int) : WFShape (flattenArray it xs) := by
+  unfold flattenArray
+  split
+  · split
+    · have := chunks_encodeInts u64 (by decide) xs
+      simp only [u64] at this
+      simp [WFShape, this]
+    · exact wf_shapeArray xs
+  · exact wf_shapeArray xs
+
 /-- Step 1 with the standard port names: the successor's input type is `{"input": v}` where
 `v` carries the predecessor's output shape. -/
 theorem inferInput_keyed (pre post : Node) (vo vi : Val) (s : List Int)
     (hpo : pre.outputType = typeDict "output" vo) (hso : Spec.shapeOfVal vo = some s)
-    (hpi : post.inputType = typeDict "input" vi) (hvi : PortVal vi) :
+    (hpi : post.inputType = typeDict "input" vi) (hvi : PortVal vi) (hwo : WFShape vo) (hwi : WFShape vi) :
     ∃ v, inferInput pre post = .ok (post.setInputType (typeDict "input" v)) ∧
-      Spec.shapeOfVal v = some s := by
+      Spec.shapeOfVal v = some s ∧ WFShape v := by
   obtain ⟨t, h1, hts, _, hor⟩ := inferInput_shape pre post "output" "input" vo vi s hpo hso hpi hvi
   rcases hor with rfl | rfl
-  · exact ⟨vo, by rw [h1, replace_output]; rfl, hso⟩
-  · refine ⟨vi, by rw [h1, hpi], ?_⟩
+  · exact ⟨vo, by rw [h1, replace_output]; rfl, hso, hwo⟩
+  · refine ⟨vi, by rw [h1, hpi], ?_, hwi⟩
     rw [hpi] at hts; simpa [Spec.portShape, typeDict] using hts
 
 /-- keyed form of the node typing: the standard port names and defined shapes -/
 def HasTypesK (n : Node) (t : List Int × List Int) : Prop :=
-  (∃ vi, n.inputType = typeDict "input" vi ∧ Spec.shapeOfVal vi = some t.1) ∧
-  (∃ vo, n.outputType = typeDict "output" vo ∧ Spec.shapeOfVal vo = some t.2)
+  (∃ vi, n.inputType = typeDict "input" vi ∧ Spec.shapeOfVal vi = some t.1 ∧ WFShape vi) ∧
+  (∃ vo, n.outputType = typeDict "output" vo ∧ Spec.shapeOfVal vo = some t.2 ∧ WFShape vo)
 
 /-- one loop body on an erased **Flatten** node: its output type is recomputed from the
 restored input shape -/
 theorem stepNode_flatten (pre post : Node) (vo vi : Val) (s : List Int) (sd ed : Int)
     (hk : post.kind = "Flatten") (hout : post.outputType = typeDict "output" .none)
-    (hsd : post.field? "start_dim" = some (.int sd)) (hed : post.field? "end_dim" = some (.int ed))
+    (hsd : (post.field? "start_dim").bind Val.asInt? = some sd) (hed : (post.field? "end_dim").bind Val.asInt? = some ed)
     (hpo : pre.outputType = typeDict "output" vo) (hso : Spec.shapeOfVal vo = some s) (hne : s ≠ [])
-    (hpi : post.inputType = typeDict "input" vi) (hvi : PortVal vi)
+    (hpi : post.inputType = typeDict "input" vi) (hvi : PortVal vi) (hwo : WFShape vo) (hwi : WFShape vi)
     (hcount : Py.prod s = Py.prod (calcFlattenOutput s sd ed)) (hfit : FitsI64 (calcFlattenOutput s sd ed)) :
     (stepNode pre post).2 = none ∧ HasTypesK (stepNode pre post).1 (s, calcFlattenOutput s sd ed) := by
-  obtain ⟨v, h1, hv⟩ := inferInput_keyed pre post vo vi s hpo hso hpi hvi
+  obtain ⟨v, h1, hv, hwv⟩ := inferInput_keyed pre post vo vi s hpo hso hpi hvi hwo hwi
   have hsi := shapeInts_of_some v s hv hne
   have hfa := shapeOfVal_flattenArray v _ hfit
+  have hwf := wf_flattenArray v (calcFlattenOutput s sd ed)
   cases post with
   | mk k f i o m c e =>
   simp only [Node.kind, Node.outputType, Node.field?, Node.fields] at hk hout hsd hed
@@ -112,15 +150,15 @@ theorem stepNode_flatten (pre post : Node) (vo vi : Val) (s : List Int) (sd ed :
   simp [stepNode, h1, mirrorOutput, Node.isKind, Node.kind, Node.setInputType, Node.setTypes, Node.inputType,
     Node.outputType, inferOutput, typeDict, typeUndefined_single, isNoneVal, inferFlatten, flattenShapes, getItem,
     Py.lookup, hsi, Node.field?, Node.fields, hsd, hed, Val.asInt?, hcount, Node.setOutputType, HasTypesK, hv, hfa,
-    bind, Except.bind, pure, Except.pure]
+    hwv, hwf, bind, Except.bind, pure, Except.pure]
 
 /-- keyed: one loop body on an **Output** node (shape erased, right or wrong) -/
 theorem stepNode_outputK (pre post : Node) (vo vi : Val) (s : List Int)
     (hk : post.kind = "Output")
     (hpo : pre.outputType = typeDict "output" vo) (hso : Spec.shapeOfVal vo = some s)
-    (hpi : post.inputType = typeDict "input" vi) (hvi : PortVal vi) :
+    (hpi : post.inputType = typeDict "input" vi) (hvi : PortVal vi) (hwo : WFShape vo) (hwi : WFShape vi) :
     (stepNode pre post).2 = none ∧ HasTypesK (stepNode pre post).1 (s, s) := by
-  obtain ⟨v, h1, hv⟩ := inferInput_keyed pre post vo vi s hpo hso hpi hvi
+  obtain ⟨v, h1, hv, hwv⟩ := inferInput_keyed pre post vo vi s hpo hso hpi hvi hwo hwi
   have hn : isNoneVal v = false := isNoneVal_of_shape v s hv
   cases post with
   | mk k f i o m c e =>
@@ -129,15 +167,16 @@ theorem stepNode_outputK (pre post : Node) (vo vi : Val) (s : List Int)
   simp only [typeDict] at h1
   simp [stepNode, h1, mirrorOutput, Node.isKind, Node.kind, Node.setInputType, Node.setTypes, Node.inputType,
     Node.outputType, renameKeys, insertAll, Py.insert, inferOutput, Node.setOutputType, typeUndefined_single, hn,
-    HasTypesK, typeDict, hv, replace_input, bind, Except.bind, pure, Except.pure]
+    HasTypesK, typeDict, hv, hwv, replace_input, bind, Except.bind, pure, Except.pure]
 
 /-- keyed: one loop body on a node whose output type is already defined -/
 theorem stepNode_annotatedK (pre post : Node) (vo vi w : Val) (s t2 : List Int)
     (hk : post.kind ≠ "Output") (hout : post.outputType = typeDict "output" w) (hw : Spec.shapeOfVal w = some t2)
+    (hww : WFShape w)
     (hpo : pre.outputType = typeDict "output" vo) (hso : Spec.shapeOfVal vo = some s)
-    (hpi : post.inputType = typeDict "input" vi) (hvi : PortVal vi) :
+    (hpi : post.inputType = typeDict "input" vi) (hvi : PortVal vi) (hwo : WFShape vo) (hwi : WFShape vi) :
     (stepNode pre post).2 = none ∧ HasTypesK (stepNode pre post).1 (s, t2) := by
-  obtain ⟨v, h1, hv⟩ := inferInput_keyed pre post vo vi s hpo hso hpi hvi
+  obtain ⟨v, h1, hv, hwv⟩ := inferInput_keyed pre post vo vi s hpo hso hpi hvi hwo hwi
   have hn : isNoneVal w = false := isNoneVal_of_shape w t2 hw
   cases post with
   | mk k f i o m c e =>
@@ -146,6 +185,6 @@ theorem stepNode_annotatedK (pre post : Node) (vo vi w : Val) (s t2 : List Int)
   have hk' : (k == "Output") = false := by simpa using hk
   simp only [typeDict] at h1
   simp [stepNode, h1, mirrorOutput, Node.isKind, Node.kind, Node.setInputType, Node.setTypes, Node.inputType,
-    Node.outputType, inferOutput, hk', typeDict, typeUndefined_single, hn, HasTypesK, hv, hw, pure, Except.pure]
+    Node.outputType, inferOutput, hk', typeDict, typeUndefined_single, hn, HasTypesK, hv, hw, hwv, hww, pure, Except.pure]
 
 end NirVerif.Lemmas
